@@ -106,8 +106,10 @@ var Templates = []*Template{
 	},
 	{
 		// the patched file is shorter than the original
-		Name:    "shrink",
-		Patch:   func(k int) string { return fmt.Sprintf("@@\nvar x expression\n@@\n-vfOld%dWithAVeryLongDescriptiveName(x, nil, nil, nil)\n+vf%d(x)\n", k, k) },
+		Name: "shrink",
+		Patch: func(k int) string {
+			return fmt.Sprintf("@@\nvar x expression\n@@\n-vfOld%dWithAVeryLongDescriptiveName(x, nil, nil, nil)\n+vf%d(x)\n", k, k)
+		},
 		Trigger: func(k int) string { return fmt.Sprintf("vfOld%dWithAVeryLongDescriptiveName", k) },
 		Stmt: func(r *world.PRNG, k int) string {
 			return fmt.Sprintf("vfOld%dWithAVeryLongDescriptiveName(%s, nil, nil, nil)", k, GenExpr(r, 1))
